@@ -186,6 +186,20 @@ Section Compose.
   Qed.
 End Compose.
 
+(* NOT proved (full statements):
+   (1) the step lemma for handletimeouts, the analogue of status_after_kill:
+         forall h dt c w j, known w -> let s := Q.run h Q.init in let i := Q.JName (code_of (render_jobid c w)) in
+           QI.job_at s i = Some j -> Q.j_done j = false -> Q.j_timeout j <= Q.s_now s + dt ->
+           do_render_status nfkd (qinfo16 (Q.run (h ++ [Q.Tick dt]) Q.init)) c w = Failed (dec_err 1)
+       it needs the queue invariant "every job that is not done has its (timeout, (prio, serial)) entry in s_tq", which
+       coq/C16 does not provide.  (reachable_status16 does cover the state after the sweep: a job whose error code is 1
+       is answered with Failed (dec_err 1).)
+   (2) a simulation between C19's own life-cycle model (Model.v `run`, full JSON values, one record per id; tied to the
+       real workq by the harness) and the C16 model under the decoding, i.e.
+         forall ops, exists h, forall id, qinfo_of (Model.run ops) id = qinfo16 (Q.run h Q.init) id
+       (the C16 model stores value CODES and replaces the info dict on SetInfo where jobs.py updates it key-wise, so the
+       statement needs a decoding that is history dependent).  Both models are tied to the same real code instead. *)
+
 (* the statement Properties.v uses, with the decoding made explicit *)
 Lemma reachable_status16_full :
   forall (nfkd : str -> str) (code_of : str -> N) (dec_err dec_res dec_info : N -> pyval),
